@@ -24,6 +24,8 @@ RES = {  # name -> (pdgid, spin class, decays to)
     "PiPi10": (988101, "S", ("pi+", "pi-")),
     "PiPi20": (978101, "S", ("pi+", "pi-")),
 }
+TWIN_SPELLINGS = {"rho(770)0": "rho0", "K*(892)bar0": "K*bar0", "K(1)(1270)bar-": "K(1)(1270)-", "a(1)(1260)+": "a(1)+",
+                  "omega(782)0": "omega(782)", "K(1)(1400)bar-": "K(1)(1400)-"}
 LS_TAGS = ["GSpline.EFF", "kMatrix.pole.1", "kMatrix.prod.0", "FOCUS.Kpi", "FOCUS.I32", "BW", "LASS.x"]
 NUM_SPELL = ["1", "0", "0.648936", "-0.271637", "2.01551", "-2.96395", "3.01374", "0.0205762", "1e-3", "-1.5E+0", "+0.25",
              "0.5", "1.25", "-0.75", "2", "0.123456789",
@@ -54,6 +56,10 @@ class AmpCZ:
 
     def name(self, a):
         if a not in self.names:
+            # "<token>t": another spelling of the resonance bound to <token> that the reader resolves to the same particle
+            if a.endswith("t") and a[:-1] in self.names and TWIN_SPELLINGS.get(self.names[a[:-1]]):
+                self.names[a] = TWIN_SPELLINGS[self.names[a[:-1]]]
+                return self.names[a]
             pool = [n for n in list(RES) + list(FINALS) if n not in self.names.values()]
             self.names[a] = self.rng.choice(pool)
         return self.names[a]
